@@ -1173,3 +1173,275 @@ Proof.
               (cache_ok_nil ex_U)) as [_ [K _]].
   exact K.
 Qed.
+
+(* ------------------------------------------------------------------ the proposed repair of the collinear fallback (F10)
+   [fallback_fixed] returns the lexicographically smallest and largest INPUT points.  With it the wrapper meets
+   the contract on EVERY input, so cell_bbox_exact_lemma / cell_hull_exact_lemma / cache_transparent_lemma apply
+   to the repaired wrapper without restriction on the contents (given qhull's own contract). *)
+Definition lex_le (a b : pt) : Prop := fst a < fst b \/ (fst a == fst b /\ snd a <= snd b).
+Lemma pt_ltb_true : forall a b, pt_ltb a b = true <-> fst a < fst b \/ (fst a == fst b /\ snd a < snd b).
+Proof.
+  intros a b. unfold pt_ltb. rewrite qcmp_eq. destruct (fst a ?= fst b) eqn:E.
+  - apply Qeq_alt in E. rewrite qlt_true. split; [intros H; right; auto|intros [H|[_ H]]; [lra|assumption]].
+  - apply Qlt_alt in E. split; [intros _; left; assumption|reflexivity].
+  - apply Qgt_alt in E. split; [discriminate|intros [H|[H _]]; lra].
+Qed.
+Lemma pt_ltb_false : forall a b, pt_ltb a b = false -> lex_le b a.
+Proof.
+  intros a b H. unfold lex_le.
+  destruct (Qlt_le_dec (fst b) (fst a)) as [L|L]; [left; assumption|].
+  destruct (Qlt_le_dec (fst a) (fst b)) as [L'|L'].
+  - assert (pt_ltb a b = true) by (apply pt_ltb_true; left; assumption). congruence.
+  - right. split; [lra|]. destruct (Qlt_le_dec (snd a) (snd b)) as [M|M]; [|assumption].
+    assert (pt_ltb a b = true) by (apply pt_ltb_true; right; split; [lra|assumption]). congruence.
+Qed.
+Lemma lex_le_refl : forall a, lex_le a a.
+Proof. intros a. right. split; [reflexivity|apply Qle_refl]. Qed.
+Lemma lex_le_trans : forall a b c, lex_le a b -> lex_le b c -> lex_le a c.
+Proof. intros a b c [H|[H1 H2]] [K|[K1 K2]]; unfold lex_le; [left; lra|left; lra|left; lra|right; split; lra]. Qed.
+Lemma pt_ltb_lex_le : forall a b, pt_ltb a b = true -> lex_le a b.
+Proof. intros a b H. apply pt_ltb_true in H. destruct H as [H|[H1 H2]]; [left; assumption|right; split; lra]. Qed.
+
+Lemma fold_lex_min : forall t a, In (fold_left lex_min t a) (a :: t) /\
+  forall p, In p (a :: t) -> lex_le (fold_left lex_min t a) p.
+Proof.
+  induction t as [|b t IH]; intros a; simpl.
+  - split; [left; reflexivity|intros p [<-|[]]; apply lex_le_refl].
+  - destruct (IH (lex_min a b)) as [I M]. split.
+    + destruct I as [I|I]; [|right; right; assumption]. rewrite <- I. unfold lex_min. destruct (pt_ltb b a); auto.
+    + assert (La : lex_le (lex_min a b) a) by (unfold lex_min; destruct (pt_ltb b a) eqn:E; [apply pt_ltb_lex_le; assumption|apply lex_le_refl]).
+      assert (Lb : lex_le (lex_min a b) b) by (unfold lex_min; destruct (pt_ltb b a) eqn:E; [apply lex_le_refl|apply pt_ltb_false; assumption]).
+      pose proof (M _ (or_introl eq_refl)) as M0.
+      intros p [<-|[<-|Hp]]; [eapply lex_le_trans; eauto|eapply lex_le_trans; eauto|apply M; right; assumption].
+Qed.
+Lemma fold_lex_max : forall t a, In (fold_left lex_max t a) (a :: t) /\
+  forall p, In p (a :: t) -> lex_le p (fold_left lex_max t a).
+Proof.
+  induction t as [|b t IH]; intros a; simpl.
+  - split; [left; reflexivity|intros p [<-|[]]; apply lex_le_refl].
+  - destruct (IH (lex_max a b)) as [I M]. split.
+    + destruct I as [I|I]; [|right; right; assumption]. rewrite <- I. unfold lex_max. destruct (pt_ltb a b); auto.
+    + assert (La : lex_le a (lex_max a b)) by (unfold lex_max; destruct (pt_ltb a b) eqn:E; [apply pt_ltb_lex_le; assumption|apply lex_le_refl]).
+      assert (Lb : lex_le b (lex_max a b)) by (unfold lex_max; destruct (pt_ltb a b) eqn:E; [apply lex_le_refl|apply pt_ltb_false; assumption]).
+      pose proof (M _ (or_introl eq_refl)) as M0.
+      intros p [<-|[<-|Hp]]; [eapply lex_le_trans; eauto|eapply lex_le_trans; eauto|apply M; right; assumption].
+Qed.
+
+Lemma cross_eq : forall o a b, cross o a b == (fst a - fst o) * (snd b - snd o) - (snd a - snd o) * (fst b - fst o).
+Proof. intros. unfold cross. qs. reflexivity. Qed.
+
+Lemma line_param : forall ax ay dx dy qx qy u v, dx * (qy - ay) - dy * (qx - ax) == 0 ->
+  (dx * dx + dy * dy) * (u * qx + v * qy) ==
+  (dx * dx + dy * dy) * (u * ax + v * ay) + (dx * (qx - ax) + dy * (qy - ay)) * (u * dx + v * dy).
+Proof.
+  intros ax ay dx dy qx qy u v H.
+  assert (E : (dx * dx + dy * dy) * (u * qx + v * qy) -
+              ((dx * dx + dy * dy) * (u * ax + v * ay) + (dx * (qx - ax) + dy * (qy - ay)) * (u * dx + v * dy)) ==
+              (dx * (qy - ay) - dy * (qx - ax)) * (v * dx - u * dy)) by ring.
+  rewrite H, Qmult_0_l in E. lra.
+Qed.
+Lemma line_step : forall dx dy ex ey, dx * ey - dy * ex == 0 ->
+  (dx * dx + dy * dy) * ex == dx * (dx * ex + dy * ey) /\ (dx * dx + dy * dy) * ey == dy * (dx * ex + dy * ey).
+Proof.
+  intros dx dy ex ey H. split.
+  - assert (E : (dx * dx + dy * dy) * ex - dx * (dx * ex + dy * ey) == - dy * (dx * ey - dy * ex)) by ring.
+    rewrite H in E. lra.
+  - assert (E : (dx * dx + dy * dy) * ey - dy * (dx * ex + dy * ey) == dx * (dx * ey - dy * ex)) by ring.
+    rewrite H in E. lra.
+Qed.
+
+Lemma sign_pos : forall N e d t, 0 < N -> N * e == d * t -> 0 < d -> 0 <= e -> 0 <= t.
+Proof. intros N e d t HN E Hd He. destruct (Qlt_le_dec t 0) as [L|L]; [exfalso; nra|assumption]. Qed.
+Lemma sign_neg : forall N e d t, 0 < N -> N * e == d * t -> d < 0 -> 0 <= e -> t <= 0.
+Proof. intros N e d t HN E Hd He. destruct (Qlt_le_dec 0 t) as [L|L]; [exfalso; nra|assumption]. Qed.
+Lemma param_le : forall N A c t1 t2 L1 L2, 0 < N -> N * L1 == N * A + t1 * c -> N * L2 == N * A + t2 * c ->
+  (t1 <= t2 /\ 0 <= c) \/ (t2 <= t1 /\ c <= 0) -> L1 <= L2.
+Proof.
+  intros N A c t1 t2 L1 L2 HN E1 E2 H.
+  assert (X : N * (L1 - L2) == (t1 - t2) * c) by lra.
+  destruct (Qlt_le_dec L2 L1) as [L|L]; [exfalso|assumption].
+  destruct H as [[H1 H2]|[H1 H2]]; nra.
+Qed.
+
+(* points on a common line through a0 with direction d <> 0, lexicographically between lo and hi *)
+Lemma segment_cover : forall (a0 b1 lo hi p : pt) u v k,
+  ~ (fst a0 == fst b1 /\ snd a0 == snd b1) ->
+  cross a0 b1 lo == 0 -> cross a0 b1 hi == 0 -> cross a0 b1 p == 0 ->
+  lex_le lo p -> lex_le p hi -> lin u v lo <= k -> lin u v hi <= k -> lin u v p <= k.
+Proof.
+  intros [ax ay] [bx by_] [lx ly] [hx hy] [px py] u v k ND Cl Ch Cp Llp Lph Kl Kh.
+  rewrite cross_eq in Cl, Ch, Cp. unfold lex_le, lin in *. simpl in *.
+  set (dx := bx - ax) in *. set (dy := by_ - ay) in *.
+  assert (N : 0 < dx * dx + dy * dy).
+  { destruct (Qeq_dec dx 0) as [Zx|Zx].
+    - destruct (Qeq_dec dy 0) as [Zy|Zy]; [exfalso; apply ND; unfold dx, dy in *; split; lra|].
+      assert (0 < dy * dy) by (destruct (Qlt_le_dec dy 0); nra). nra.
+    - assert (0 < dx * dx) by (destruct (Qlt_le_dec dx 0); nra). nra. }
+  pose proof (line_param ax ay dx dy lx ly u v Cl) as El.
+  pose proof (line_param ax ay dx dy hx hy u v Ch) as Eh.
+  pose proof (line_param ax ay dx dy px py u v Cp) as Ep.
+  assert (Clp : dx * (py - ly) - dy * (px - lx) == 0) by lra.
+  assert (Cph : dx * (hy - py) - dy * (hx - px) == 0) by lra.
+  destruct (line_step dx dy _ _ Clp) as [Xlp Ylp]. destruct (line_step dx dy _ _ Cph) as [Xph Yph].
+  clear Cl Ch Cp Clp Cph ND.
+  set (N2 := dx * dx + dy * dy) in *.
+  set (c := u * dx + v * dy) in *.
+  set (tl := dx * (lx - ax) + dy * (ly - ay)) in *. set (th := dx * (hx - ax) + dy * (hy - ay)) in *.
+  set (tp := dx * (px - ax) + dy * (py - ay)) in *.
+  assert (Dlp : dx * (px - lx) + dy * (py - ly) == tp - tl) by (unfold tp, tl; ring).
+  assert (Dph : dx * (hx - px) + dy * (hy - py) == th - tp) by (unfold tp, th; ring).
+  rewrite Dlp in Xlp, Ylp. rewrite Dph in Xph, Yph. clear Dlp Dph.
+  assert (M : (tl <= tp /\ tp <= th) \/ (th <= tp /\ tp <= tl)).
+  { clear El Eh Ep Kl Kh.
+    destruct (Qlt_le_dec 0 dx) as [Px|Px].
+    - assert (E1 : 0 <= px - lx) by (destruct Llp as [L|[L _]]; lra).
+      assert (E2 : 0 <= hx - px) by (destruct Lph as [L|[L _]]; lra).
+      pose proof (sign_pos _ _ _ _ N Xlp Px E1). pose proof (sign_pos _ _ _ _ N Xph Px E2). left; split; lra.
+    - destruct (Qlt_le_dec dx 0) as [Nx|Nx].
+      + assert (E1 : 0 <= px - lx) by (destruct Llp as [L|[L _]]; lra).
+        assert (E2 : 0 <= hx - px) by (destruct Lph as [L|[L _]]; lra).
+        pose proof (sign_neg _ _ _ _ N Xlp Nx E1). pose proof (sign_neg _ _ _ _ N Xph Nx E2). right; split; lra.
+      + assert (Zx : dx == 0) by lra.
+        assert (Ex1 : px - lx == 0).
+        { rewrite Zx, Qmult_0_l in Xlp. apply Qmult_integral in Xlp. destruct Xlp; [lra|assumption]. }
+        assert (Ex2 : hx - px == 0).
+        { rewrite Zx, Qmult_0_l in Xph. apply Qmult_integral in Xph. destruct Xph; [lra|assumption]. }
+        assert (L1 : 0 <= py - ly) by (destruct Llp as [L|[_ L]]; lra).
+        assert (L2 : 0 <= hy - py) by (destruct Lph as [L|[_ L]]; lra).
+        destruct (Qlt_le_dec 0 dy) as [Py|Py].
+        * pose proof (sign_pos _ _ _ _ N Ylp Py L1). pose proof (sign_pos _ _ _ _ N Yph Py L2). left; split; lra.
+        * assert (Ny : dy < 0).
+          { destruct (Qeq_dec dy 0) as [Zy|Zy]; [|lra]. exfalso. unfold N2 in N. rewrite Zx, Zy in N. lra. }
+          pose proof (sign_neg _ _ _ _ N Ylp Ny L1). pose proof (sign_neg _ _ _ _ N Yph Ny L2). right; split; lra. }
+  clear Xlp Ylp Xph Yph Llp Lph.
+  destruct (Qlt_le_dec c 0) as [Cn|Cp'].
+  - destruct M as [[M1 M2]|[M1 M2]].
+    + assert (X : u * px + v * py <= u * lx + v * ly) by (eapply (param_le N2); [exact N|exact Ep|exact El|right; split; lra]). lra.
+    + assert (X : u * px + v * py <= u * hx + v * hy) by (eapply (param_le N2); [exact N|exact Ep|exact Eh|right; split; lra]). lra.
+  - destruct M as [[M1 M2]|[M1 M2]].
+    + assert (X : u * px + v * py <= u * hx + v * hy) by (eapply (param_le N2); [exact N|exact Ep|exact Eh|left; split; lra]). lra.
+    + assert (X : u * px + v * py <= u * lx + v * ly) by (eapply (param_le N2); [exact N|exact Ep|exact El|left; split; lra]). lra.
+Qed.
+
+Lemma pt_eqb_true : forall a b, pt_eqb a b = true <-> fst a == fst b /\ snd a == snd b.
+Proof. intros a b. unfold pt_eqb. rewrite andb_true_iff, !qeqb_true. reflexivity. Qed.
+
+Lemma cross_sign_Eq : forall o a b, cross_sign o a b = Eq -> cross o a b == 0.
+Proof.
+  intros o a b H. unfold cross_sign in H. rewrite qcmp_eq in H. apply Qeq_alt in H.
+  unfold qmul in H. rewrite !qn_eq, !qsub_eq in H. rewrite cross_eq. lra.
+Qed.
+
+Lemma collinearb_spec : forall S, collinearb S = true ->
+  (exists a, In a S /\ forall p, In p S -> fst a == fst p /\ snd a == snd p) \/ S = [] \/
+  (exists a b, ~ (fst a == fst b /\ snd a == snd b) /\ forall p, In p S -> cross a b p == 0).
+Proof.
+  intros [|a t] H; [right; left; reflexivity|]. simpl in H.
+  destruct (find (fun b => negb (pt_eqb a b)) t) as [b|] eqn:F.
+  - right; right. apply find_some in F. destruct F as [Ib Nb]. exists a, b. split.
+    + intros E. apply pt_eqb_true in E. rewrite E in Nb. discriminate.
+    + rewrite forallb_forall in H. intros p [<-|Hp].
+      * rewrite cross_eq. ring.
+      * specialize (H p Hp). apply cross_sign_Eq. destruct (cross_sign a b p); [reflexivity|discriminate|discriminate].
+  - left. exists a. split; [left; reflexivity|]. intros p [<-|Hp]; [split; reflexivity|].
+    pose proof (find_none _ _ F p Hp) as N. simpl in N. apply negb_false_iff in N. apply pt_eqb_true. assumption.
+Qed.
+
+Lemma fallback_fixed_sem : forall S, collinearb S = true -> hull_sem (fallback_fixed S) S.
+Proof.
+  intros S HC. destruct S as [|a t]; [apply hull_sem_refl|].
+  destruct (fold_lex_min t a) as [Ilo Mlo]. destruct (fold_lex_max t a) as [Ihi Mhi].
+  unfold fallback_fixed. set (lo := fold_left lex_min t a) in *. set (hi := fold_left lex_max t a) in *.
+  assert (HI : incl (if pt_eqb lo hi then [lo] else [lo; hi]) (a :: t)).
+  { destruct (pt_eqb lo hi); intros p Hp; simpl in Hp; intuition (subst; assumption). }
+  split; [exact HI|].
+  intros u v k Hk p Hp.
+  assert (Klo : lin u v lo <= k) by (apply Hk; destruct (pt_eqb lo hi); left; reflexivity).
+  assert (Khi : lin u v hi <= k).
+  { destruct (pt_eqb lo hi) eqn:E.
+    - apply pt_eqb_true in E. destruct E as [E1 E2]. unfold lin in *. rewrite <- E1, <- E2. exact Klo.
+    - apply Hk. right; left; reflexivity. }
+  destruct (collinearb_spec _ HC) as [[a0 [Ia0 Eq0]]|[E|[a0 [b0 [ND Cr]]]]].
+  - destruct (Eq0 p Hp) as [P1 P2]. destruct (Eq0 lo Ilo) as [L1 L2]. unfold lin in *. rewrite <- P1, <- P2, L1, L2. exact Klo.
+  - discriminate E.
+  - eapply (segment_cover a0 b0 lo hi p); eauto.
+Qed.
+
+Theorem convex_hull_w_fixed_sem_lemma : forall hull, (forall S, hull_ok (hull S) S) ->
+  forall S, hull_sem (convex_hull_w_fixed hull S) S.
+Proof.
+  intros hull Hh S. unfold convex_hull_w_fixed.
+  destruct (Nat.ltb (length S) 4); [apply hull_sem_refl|].
+  destruct (same_x S); [apply hull_sem_refl|].
+  destruct (collinearb S) eqn:E; [apply fallback_fixed_sem; exact E|apply hull_ok_sem, Hh].
+Qed.
+
+Corollary cell_bbox_exact_patched_lemma : forall hull, (forall S, hull_ok (hull S) S) ->
+  forall U, family_ok U -> forall c, U c -> forall ch, cache_ok U ch ->
+  box_eq (g_box (fst (cell_query (convex_hull_w_fixed hull) false c ch))) (bbox (flatten c)) /\
+  hull_sem (g_hull (fst (cell_query (convex_hull_w_fixed hull) true c ch))) (flatten c).
+Proof.
+  intros hull Hh U FU c Uc ch Hch.
+  pose proof (convex_hull_w_fixed_sem_lemma hull Hh) as HC.
+  destruct (cell_bbox_exact_lemma _ HC U FU c Uc ch Hch) as [_ [K _]].
+  destruct (cell_hull_exact_lemma _ HC U FU c Uc ch Hch) as [K2 _]. auto.
+Qed.
+
+(* using only the corners cmin and cmax in the quarter-turn branch gives the same box: a change of the
+   implementation to two corners is NOT a behaviour change (the correspondence run rightly does not flag it) *)
+Lemma two_corners_suffice_lemma : forall pl off S x0 y0 x1 y1, pl_ca pl * pl_sa pl == 0 ->
+  is_bbox S (Box x0 y0 x1 y1) ->
+  box_eq (bbox (map (xform pl off) [(x0, y0); (x1, y1)])) (bbox (map (xform pl off) (corners (Box x0 y0 x1 y1)))).
+Proof.
+  intros pl off S x0 y0 x1 y1 Hq HB.
+  pose proof (corners_is_bbox _ _ _ _ _ HB) as HC.
+  assert (H2 : is_bbox [(x0, y0); (x1, y1)] (Box x0 y0 x1 y1)).
+  { apply is_bbox_spec in HC. destruct HC as [B _]. apply is_bbox_spec. split; [|repeat split].
+    - intros p [<-|[<-|[]]]; apply B; simpl; auto.
+    - exists (x0, y0). split; [left; reflexivity|reflexivity].
+    - exists (x0, y0). split; [left; reflexivity|reflexivity].
+    - exists (x1, y1). split; [right; left; reflexivity|reflexivity].
+    - exists (x1, y1). split; [right; left; reflexivity|reflexivity]. }
+  apply bbox_transfer_eq; intros u v Huv;
+    (eapply ldom_map; [intros p; rewrite lin_xform, <- Qplus_assoc; reflexivity|]);
+    [eapply (adom_same_box _ _ _ H2 HC)|eapply (adom_same_box _ _ _ HC H2)]; apply pull_axis; assumption.
+Qed.
+
+(* ------------------------------------------------------------------ the quarter-turn branch is safe for ANY cos / sin
+   (in the implementation cos(pi/2) is 6e-17, not 0): the box of the transformed corners always CONTAINS the
+   transformed geometry; it is the exact box when cos*sin == 0 (ref_bbox_quarter_turn_lemma) *)
+Lemma corners_cover : forall S x0 y0 x1 y1, is_bbox S (Box x0 y0 x1 y1) -> covers (corners (Box x0 y0 x1 y1)) S.
+Proof.
+  intros S x0 y0 x1 y1 H u v k Hk p Hp. apply is_bbox_spec in H. destruct H as [B _].
+  destruct (B p Hp) as [Bx0 [Bx1 [By0 By1]]].
+  assert (K1 := Hk (x0, y0) (or_introl eq_refl)).
+  assert (K2 := Hk (x1, y1) (or_intror (or_introl eq_refl))).
+  assert (K3 := Hk (x0, y1) (or_intror (or_intror (or_introl eq_refl)))).
+  assert (K4 := Hk (x1, y0) (or_intror (or_intror (or_intror (or_introl eq_refl))))).
+  unfold lin in *. simpl in *. clear Hk B Hp.
+  destruct (Qlt_le_dec u 0) as [U|U]; destruct (Qlt_le_dec v 0) as [V|V]; nra.
+Qed.
+
+Theorem ref_bbox_corners_safe_lemma : forall S B T, is_bbox S B -> affine T -> forall p, In p S ->
+  exists X0 Y0 X1 Y1, bbox (map T (corners B)) = Box X0 Y0 X1 Y1 /\
+    X0 <= fst (T p) /\ fst (T p) <= X1 /\ Y0 <= snd (T p) /\ snd (T p) <= Y1.
+Proof.
+  intros S [|x0 y0 x1 y1] T HB [a [b [c [d [e [f HT]]]]]] p Hp.
+  - simpl in HB. subst. inversion Hp.
+  - pose proof (covers_fdom _ _ (corners_cover _ _ _ _ _ HB)) as FD.
+    assert (L : forall u v q, lin u v (T q) == lin (u * a + v * c) (u * b + v * d) q + (u * e + v * f)).
+    { intros u v q. destruct (HT q) as [E1 E2]. unfold lin. rewrite E1, E2. ring. }
+    assert (D : forall u v, ldom u v (map T S) (map T (corners (Box x0 y0 x1 y1)))).
+    { intros u v. eapply ldom_map; [intros q; apply L|apply FD]. }
+    pose proof (bbox_is_bbox (map T (corners (Box x0 y0 x1 y1)))) as BB.
+    destruct (bbox (map T (corners (Box x0 y0 x1 y1)))) as [|X0 Y0 X1 Y1] eqn:E.
+    + simpl in BB. discriminate BB.
+    + exists X0, Y0, X1, Y1. split; [reflexivity|].
+      apply is_bbox_spec in BB. destruct BB as [Bd _].
+      assert (Iq : In (T p) (map T S)) by (apply in_map; assumption).
+      destruct (D 1 0 _ Iq) as [q1 [I1 L1]]. destruct (D (-(1)) 0 _ Iq) as [q2 [I2 L2]].
+      destruct (D 0 1 _ Iq) as [q3 [I3 L3]]. destruct (D 0 (-(1)) _ Iq) as [q4 [I4 L4]].
+      destruct (Bd q1 I1) as [? [? [? ?]]]. destruct (Bd q2 I2) as [? [? [? ?]]].
+      destruct (Bd q3 I3) as [? [? [? ?]]]. destruct (Bd q4 I4) as [? [? [? ?]]].
+      unfold lin in *. repeat split; lra.
+Qed.
